@@ -14,6 +14,7 @@ from dsim.sim import ALL_SLOTS, Sim
 from dsim.world import substream
 
 PROPERTY = "C15"
+DECOY = 0.25  # share of runs that edit a second document first and keep it open (runner.with_decoy)
 RULE = (
     "one run = a seeded history of add_style (all 15 attributes over their domains: 188 font families, dyadic sizes/indents/insets, RGB "
     "colours, 5x3 alignments, wrap, background colour or image), set_cell_style by object / by name / write(style=), border strokes (4 sides, "
